@@ -50,6 +50,11 @@ CLAIMED["C03"] = ("predicated path enumeration (E4), append-ownership / slice-al
          "go/ssa model; calls through interfaces/function values and library calls assumed not to retain slice arguments (listed in evidence); proto.Clone deep-copies; loops unrolled",
          "DESIGN.md §3 C03")
 
+CLAIMED["C06"] = ("predicated path enumeration (E4), lockset with foreign locks (E3), append-ownership analysis (E9), boundary evaluation of the emptiness test, data-dependence slice for loop-carried state",
+         "Static, all-paths for the at-most-once / never-after-removal / same-key clauses: per-notification set honoured and always supplied (the rule that found the fixed double-delivery defect), registry maps only under Match.mu, remove uses the registration's key and the retained query slice is never aliased (found and now guards the fixed addSubscription leak), prune only empty children, node empty iff no clients and no children (evaluated at the four boundary combinations), one query per subscription independent of its siblings, all index constructions through path.ToStrings/CompletePath. The match relation itself ('offered iff compatible on the common prefix', containment of Query) quantifies over path values and is NOT decided.",
+         "go/ssa model; sync.RWMutex semantics; interface/function-value callees assumed not to retain slices",
+         "DESIGN.md §3 C06")
+
 NA_REASON = {}
 DEFAULT_NA = "check not built yet in this round (static rules designed in DESIGN.md section 3); not claimed until the rule runs"
 
